@@ -29,9 +29,9 @@ def configs(tier):
     q = tier == 'quick'
     gs = ['2'] if q else ['2', '7/5']
     combos = [('euler1d', 'hllc', 'muscl:vanalbada'), ('euler1d', 'hlle', 'extrapol3'), ('euler1d', 'centered', 'extrapol1')] if q else \
-        [('euler1d', fl, num) for fl in cm.FLUXES['euler1d'] for num in ['extrapol1', 'extrapol3', 'muscl:vanalbada', 'muscl:superbee']]
+        [('euler1d', fl, num) for fl in cm.FLUXES['euler1d'] for num in ['extrapol1', 'extrapol3', 'muscl:vanalbada']]
     for g in gs:
-        for m, fl, num in combos:
+        for m, fl, num in (combos if g == '2' else combos[:1] + combos[4:6] + combos[-1:]):
             out.append({'level': 'op1d', 'model': m, 'flux': fl, 'num': num, 'bc': 'per', 'gamma': g})
             for a, b in (PAIRS[:6] if q and num != 'extrapol3' else PAIRS):
                 for orient in ('lr', 'rl'):
